@@ -1,1 +1,72 @@
-// harness module (child of the mirrored module)
+// Contracts and proof harnesses for contracts/interchain-token-service/src/token_handler.rs.
+use super::*;
+use soroban_sdk::shim::{self, inst, pers, temp, Wordy, Words};
+
+pub fn symbolic_config() -> TokenIdConfigValue {
+    <TokenIdConfigValue as Wordy>::symbolic()
+}
+fn frame_ok() -> bool {
+    inst().n_changed() == 0 && pers().n_changed() == 0 && temp().n_changed() == 0 && shim::n_events() == 0 && shim::n_deploys() == 0
+}
+
+/// contract stub of take_token for callers: records the call, performs the one token call
+pub fn take_token_contract(env: &Env, sender: &Address, cfg: TokenIdConfigValue, amount: i128) -> Result<(), ContractError> {
+    shim::log_internal("take_token", Words::of(&(sender.clone(), cfg, amount)));
+    let _ = env;
+    Ok(())
+}
+pub fn give_token_contract(env: &Env, recipient: &Address, cfg: TokenIdConfigValue, amount: i128) -> Result<(), ContractError> {
+    shim::log_internal("give_token", Words::of(&(recipient.clone(), cfg, amount)));
+    let _ = env;
+    Ok(())
+}
+
+#[kani::proof]
+fn c05_take_token() {
+    let env = Env::default();
+    let _h = shim::fresh_host();
+    let me = env.current_contract_address();
+    let sender = Address::symbolic();
+    let cfg = symbolic_config();
+    let amount: i128 = kani::any();
+
+    let r = take_token(&env, &sender, cfg.clone(), amount);
+
+    assert!(r.is_ok(), "OBL C05.take_total: take_token fails only by trapping (token call failure)");
+    assert!(
+        shim::n_calls() == 1
+            && match cfg.token_manager_type {
+                TokenManagerType::NativeInterchainToken => shim::call_is(0, &cfg.token_address, "burn", &(sender.clone(), amount)),
+                TokenManagerType::LockUnlock => shim::call_is(0, &cfg.token_address, "transfer", &(sender.clone(), me.clone(), amount)),
+            },
+        "OBL C05.take_exact: exactly the stated amount is taken from the sender, once — burned for a service-deployed token, moved into the service's custody for a canonical one — on the registered token address"
+    );
+    assert!(frame_ok(), "OBL C05.take_frame");
+    kani::cover!(cfg.token_manager_type == TokenManagerType::LockUnlock, "COVER take lock");
+    kani::cover!(cfg.token_manager_type == TokenManagerType::NativeInterchainToken, "COVER take burn");
+}
+
+#[kani::proof]
+fn c05_give_token() {
+    let env = Env::default();
+    let _h = shim::fresh_host();
+    let me = env.current_contract_address();
+    let recipient = Address::symbolic();
+    let cfg = symbolic_config();
+    let amount: i128 = kani::any();
+
+    let r = give_token(&env, &recipient, cfg.clone(), amount);
+
+    assert!(r.is_ok(), "OBL C05.give_total");
+    assert!(
+        shim::n_calls() == 1
+            && match cfg.token_manager_type {
+                TokenManagerType::NativeInterchainToken => shim::call_is(0, &cfg.token_address, "mint", &(recipient.clone(), amount)),
+                TokenManagerType::LockUnlock => shim::call_is(0, &cfg.token_address, "transfer", &(me.clone(), recipient.clone(), amount)),
+            },
+        "OBL C05.give_exact: exactly the announced amount is credited to the recipient, once — minted for a service-deployed token, released from the service's custody for a canonical one"
+    );
+    assert!(frame_ok(), "OBL C05.give_frame");
+    kani::cover!(cfg.token_manager_type == TokenManagerType::LockUnlock, "COVER give unlock");
+    kani::cover!(cfg.token_manager_type == TokenManagerType::NativeInterchainToken, "COVER give mint");
+}
